@@ -479,6 +479,44 @@ Definition ok (c : list (Z * list Z) * list Z) : bool :=
 
 
 # ------------------------------------------------------------------------------------------------
+# correspondence E (appended cells): the cast model of C14/Cast.v vs the wrapper's cast back to the input dtype
+
+CAST_CELLS = [(dt, [0, 0, 0, 1, 0], 'snip', {'max_half_window': 2}) for dt in ('uint8', 'uint16', 'uint32', 'uint64')] + [
+    ('int8', [-128, -128, -128, -127, -128], 'snip', {'max_half_window': 2}),
+    ('int16', [-2 ** 15, -2 ** 15, -2 ** 15, -2 ** 15 + 1, -2 ** 15], 'snip', {'max_half_window': 2}),
+    ('int64', [2, 0, -1, -2], 'rubberband', {}),
+] + [(dt, [3, 1, 4, 1, 5, 9, 2, 6], 'snip', {'max_half_window': 2, 'filter_order': 4})
+     for dt in ('uint8', 'int8', 'uint16', 'int16', 'uint32', 'int32', 'uint64', 'int64')] + [
+    (dt, [-3, 1, -4, 1, -5, 9, -2, 6], 'snip', {'max_half_window': 3}) for dt in ('int8', 'int16', 'int32', 'int64')] + [
+    (dt, [-3, 1, -4, 1, -5, 9, -2, 6], 'mor', {'half_window': 1}) for dt in ('int8', 'int32')]
+
+
+def corr_cast(ctx):
+    lits = []
+    for dtn, vals, meth, kw in CAST_CELLS:
+        dt = np.dtype(dtn)
+        y = np.array(vals, dtype=dt)
+        got = np.asarray(quiet(getattr(fitter(), meth), y, **kw)[0])
+        fb = np.asarray(quiet(getattr(fitter(), meth), y.astype(float), **kw)[0])
+        qs = []
+        for v in fb:
+            fr = Fraction(float(v))
+            qs.append(f'(({fr.numerator}) # {fr.denominator})%Q')
+        lits.append(f'({coqbool(dt.kind == "i")}, {8 * dt.itemsize}, [{"; ".join(qs)}], {zlist([int(v) for v in got])})')
+        ctx.case(('cast', dtn, meth, tuple(vals)), nontrivial=True, kind=f'corr:cast:{dtype_class(dt)}')
+    okdef = """Definition ok (c : bool * Z * list Q * list Z) : bool :=
+  let '(signed, w, bs, exp) := c in
+  zl_eqb (map (fun b => if signed then cast_s w b else cast_u w b) bs) exp."""
+    head = """From Coq Require Import ZArith List Bool QArith.
+From PB Require Import lib.CaseUtil C14.Cast.
+Import ListNotations.
+Open Scope Z_scope.
+"""
+    return run_cases(ctx, 'correspondence:cast-model(truncate towards zero, wrap mod 2^w)==returned integer baseline(enumerated cells)',
+                     'cast', head, 'bool * Z * list Q * list Z', okdef, lits, per=100)
+
+
+# ------------------------------------------------------------------------------------------------
 # direct oracle on the implementation
 
 def lower_hull(x, y):
@@ -922,11 +960,11 @@ def run(ctx):
     ]
     ctx.gate()
     ctx.translate(['GenSnip', 'GenRubber'])
-    ok = ctx.build_props(extra=['C14/Float.vo', 'gen/GenSnip.vo', 'gen/GenRubber.vo'])
+    ok = ctx.build_props(extra=['C14/Float.vo', 'C14/Cast.vo', 'gen/GenSnip.vo', 'gen/GenRubber.vo'])
     good = True
     if ok:
         import traceback
-        for part in (corr_operators, corr_methods, corr_rubberband):
+        for part in (corr_operators, corr_methods, corr_rubberband, corr_cast):
             try:
                 good &= bool(part(ctx))
             except Exception:
